@@ -99,6 +99,8 @@ pub struct RelationSet {
 
 impl RelationSet {
     pub fn new(n: Uint, fbsize: usize, maxlarge: u64) -> Self {
+        #[cfg(yamaquasi_verif)]
+        verif_hooks::observe_new(&n, fbsize, maxlarge);
         RelationSet {
             n,
             fbsize,
@@ -1009,6 +1011,61 @@ pub mod verif_hooks {
             Some((_, v)) => v,
             None => vec![],
         }
+    }
+
+    /// Records `"new|<n>|<fbsize>|<maxlarge>"` when recording is on.
+    pub fn observe_new(n: &Uint, fbsize: usize, maxlarge: u64) {
+        let mut g = match HISTORY.lock() {
+            Ok(g) => g,
+            Err(e) => e.into_inner(),
+        };
+        if let Some((_, log)) = g.as_mut() {
+            log.push(format!("new|{n}|{fbsize}|{maxlarge}"));
+        }
+    }
+
+    /// Text dump of a store: `cycles=<count> partial=<k>rel+..> doubles=<p,q>rel+..> rev=<q,p+..>
+    /// stats=<n_partials>,<n_doubles>,<n_combined12>,<n_cycles...>` (`-` = empty; maps in key order).
+    pub fn store_dump(s: &RelationSet) -> String {
+        let join = |v: Vec<String>| {
+            if v.is_empty() {
+                "-".to_string()
+            } else {
+                v.join("+")
+            }
+        };
+        let mut keys: Vec<u64> = s.partial.keys().copied().collect();
+        keys.sort();
+        let part = join(
+            keys.iter()
+                .map(|k| format!("{k}>{}", rel_token(&s.partial[k].unpack())))
+                .collect(),
+        );
+        let dbl = join(
+            s.doubles
+                .iter()
+                .map(|(&(p, q), r)| format!("{p},{q}>{}", rel_token(&r.unpack())))
+                .collect(),
+        );
+        let rev = join(
+            s.doubles_rev
+                .iter()
+                .map(|&(q, p)| format!("{q},{p}"))
+                .collect(),
+        );
+        let cyc = s
+            .n_cycles
+            .iter()
+            .map(|c| c.to_string())
+            .collect::<Vec<_>>()
+            .join(",");
+        format!(
+            "cycles={} partial={part} doubles={dbl} rev={rev} stats={},{},{},{cyc}",
+            s.cycles.len(),
+            s.n_partials,
+            s.n_doubles,
+            s.n_combined12
+        )
     }
 
     /// Records `"<thread index>|<relation token>|<p,q or ->"` when recording is on.
